@@ -67,12 +67,12 @@ def to_obj(e):
 _cache = {}
 
 
-def opened(tc, L, P, rpc, seed=0, cached_from=None):
+def opened(tc, L, P, rpc, seed=0, cached_from=None, fs="mcfs"):
     """(product, lazy DataArray, twin DataArray, image file name) - cached per worker.
     cached_from=N: the image is opened through an index cache written and first used at rpc N"""
     from mc import env
 
-    key = (tc, L, P, rpc, cached_from)
+    key = (tc, L, P, rpc, cached_from) if fs == "mcfs" else (tc, L, P, rpc, cached_from, fs)
     if key not in _cache:
         env.import_lib()
         env.wipe_cache()
@@ -83,7 +83,7 @@ def opened(tc, L, P, rpc, seed=0, cached_from=None):
         im = synth.image_spec("HH", None, L, P, tc)
         spec = synth.product_spec("1.1" if tc == "C*8" else "1.5", images=[im])
         files, _ = synth.build(spec)
-        prod = harness.Product(files, "mcfs")
+        prod = harness.Product(files, fs)
         if cached_from is not None:
             prod.open(records_per_chunk=cached_from, create_cache=True, use_cache=False)
             prod.open(records_per_chunk=cached_from, use_cache=True)
@@ -231,7 +231,7 @@ def _classify(op, status):
 def execute(case):
     """depth 1 batch: rows expressions x column expressions"""
     tc, L, P, rpc = case["type"], case["L"], case["P"], case["rpc"]
-    prod, da, twin, fname, im, ref = opened(tc, L, P, rpc)
+    prod, da, twin, fname, im, ref = opened(tc, L, P, rpc, fs=case.get("fs", "mcfs"))
     fails = []
     n = 0
     outcomes = {}
@@ -240,7 +240,7 @@ def execute(case):
         n += 1
         outcomes[status] = outcomes.get(status, 0) + 1
         if status == "mismatch" and core.jkey(classify(op, status, extra)) not in {core.jkey(f["sig"]) for f in fails}:
-            fails.append({"sig": classify(op, status, extra), "detail": f"{tc} {L}x{P} rpc={rpc} op={op}: {detail}", "case": {"type": tc, "L": L, "P": P, "rpc": rpc, "ops": [op]}})
+            fails.append({"sig": classify(op, status, extra), "detail": f"{tc} {L}x{P} rpc={rpc} op={op}: {detail}", "case": {"type": tc, "L": L, "P": P, "rpc": rpc, "ops": [op], **({"fs": case["fs"]} if case.get("fs") else {})}})
     return {
         "ok": not fails,
         "failures": fails,
@@ -417,6 +417,13 @@ def plan(tier):
             # the full rows x columns cross product (8e5 expressions) only for two geometries in the thorough tier
             full = tier == "thorough" and (tc, L, P) in (("IU2", 4, 3), ("C*8", 3, 1)) and rpc in (1, 2, L + 1)
             cases += list(batches(tc, L, P, rpc, depth1_ops(L, P, tier, full), size=400 if not full else 4000))
+    # an async fsspec implementation (code may merge or parallelise requests there): the rows alphabet on two geometries
+    for tc, L, P in (("IU2", 5, 2), ("C*8", 4, 3)):
+        rows = ints(L) + slices(L) + arrays(L)
+        ops = [["isel", r, None] for r in rows] + [["isel", r, ["i", 0]] for r in rows[::5]]
+        for rpc in (1, 2, 3):
+            for b in batches(tc, L, P, rpc, ops, size=1500):
+                cases.append({**b, "fs": "amcfs"})
     # longer images: several line groups per selection, strides up to 7 against group sizes 2..8
     mid = [("IU2", 11, 2, (3, 4))] if tier == "quick" else [("IU2", 11, 2, (2, 3, 4, 5, 8)), ("C*8", 13, 2, (2, 3, 4, 5, 6, 7, 8)), ("IU2", 16, 1, (4, 8))]
     # widths at which the pixel payload is exactly as long as the record prefix (layout-detection code may confuse the two)
